@@ -192,6 +192,402 @@ def seed_broker_case(rep, world, seeds, ss, graph, case):
             return
 
 
+# --------------------------------------------------------------------------- late add_dependency between registered components
+
+LATE_DEP_ENTRIES = ["run-one", "run-list", "run-graph", "insights.run", "run_incremental", "run_all", "run_all-pool"]
+
+
+def gen_late_dep_case(rng):
+    """
+    A small world in which component C has an at-least-one group whose only member FAILS, and D is a registered
+    component C does not depend on.  History: the entry point on C once (C reports its group missing); then
+    dr.add_dependency(C, D) — nothing is registered afterwards —; then the same entry point on a fresh broker, where only
+    D can satisfy the group.
+    """
+    spec = []
+
+    def add(kind, items=(), optional=(), body="v", **kw):
+        sc = {"kind": kind, "items": list(items), "optional": list(optional), "enabled": True, "ignore": [], "elems": [], "body": body}
+        sc.update(kw)
+        spec.append(sc)
+        return len(spec) - 1
+    leaf = add("datasource")
+    failing = add("datasource", body="f:" + rng.choice(["skip", "content", "crash1"]))
+    helper = add(rng.choice(["datasource", "plugin"]), items=[("o", leaf)] if rng.random() < 0.5 else [])
+    if spec[helper]["kind"] == "plugin":
+        spec[helper]["ptype"] = rng.choice(W.PTYPES)
+    # D: the late dependency — a leaf, or something with dependencies of its own (which then must enter the graph too)
+    r = rng.random()
+    d_items = [] if r < 0.4 else [("o", leaf)] if r < 0.7 else [("o", helper)]
+    dkind = rng.choice(["datasource", "plugin", "plain"])
+    d = add(dkind, items=d_items, enabled=rng.random() > 0.1)
+    if dkind == "plugin":
+        spec[d]["ptype"] = rng.choice(W.PTYPES)
+    if dkind != "datasource" and rng.random() < 0.3:
+        spec[d]["falsy"] = True
+    # C: required ones around the group in any position, maybe optional ones, maybe a second group
+    ckind = rng.choice(["plugin", "plain", "rule"])
+    items = [("g", [failing] + ([failing] if rng.random() < 0.2 else []))]
+    if rng.random() < 0.6:
+        items.insert(rng.randrange(2), ("o", rng.choice([leaf, helper])))
+    if rng.random() < 0.3:
+        items.append(("g", [leaf, helper]))
+    opt = [rng.choice([leaf, helper])] if rng.random() < 0.4 else []
+    c = add(ckind, items=items, optional=opt, body="r" if ckind == "rule" else "v")
+    if ckind == "plugin":
+        spec[c]["ptype"] = rng.choice(W.PTYPES)
+    if rng.random() < 0.3:
+        spec[c]["falsy"] = True
+    # a dependent of C (and sometimes of D), and an unrelated component
+    top = add(rng.choice(["plugin", "rule"]), items=[("o", c)] + ([("o", d)] if rng.random() < 0.3 else []),
+              body="v")
+    if spec[top]["kind"] == "rule":
+        spec[top]["body"] = "r"
+    else:
+        spec[top]["ptype"] = rng.choice(W.PTYPES)
+    return {"op": "late-dep", "spec": spec, "c": c, "d": d, "top": top, "entry": rng.choice(LATE_DEP_ENTRIES),
+            "root": rng.choice(["c", "top"]), "warm": rng.randint(1, 2), "pool_seed": rng.randrange(1000)}
+
+
+def _late_dep_eval(world, case, roots):
+    """one evaluation through the recorded entry point on a fresh broker; returns (broker or None, exception or None)"""
+    import random
+    import insights
+    entry = case["entry"]
+    comps = [world.comps[r] for r in roots]
+    world.calls = []
+    b = world.new_broker([], False)
+    W.instrument(world, b)
+    try:
+        if entry == "run-one":
+            arg = comps[0]
+            if not arg:
+                arg = [arg]          # (a falsy component object handed over alone selects the default graph: C04 finding)
+            out = dr.run(arg, broker=b)
+        elif entry == "run-list":
+            out = dr.run(list(comps), broker=b)
+        elif entry == "run-graph":
+            # what insights.tests.run_input_data / the integration tests do
+            out = dr.run(dr.get_dependency_graph(comps[0]), broker=b)
+        elif entry == "insights.run":
+            _ensure_global_observer()
+            out = insights.run(component=list(comps), context=_Ctx)
+        elif entry == "run_incremental":
+            out = b
+            list(dr.run_incremental(list(comps), b))
+        elif entry == "run_all":
+            out = b
+            dr.run_all(list(comps), b)
+        else:
+            out = b
+            dr.run_all(list(comps), b, FaultPool(random.Random(case.get("pool_seed", 0)), True))
+    except Exception as ex:
+        return None, ex
+    if not isinstance(out, dr.Broker):
+        return None, AssertionError("the entry point returned %r, not a broker" % (type(out),))
+    return out, None
+
+
+def late_dep_case(rep, world, case):
+    """the whole history (see gen_late_dep_case); returns the text of dr.get_dependency_graph(C) after the late edge"""
+    c, d, top = case["c"], case["d"], case["top"]
+    spec = world.spec
+    roots = [c] if case["root"] == "c" else [top]
+    what = "%s on %s" % (case["entry"], roots)
+    for _ in range(case.get("warm", 1)):
+        b1, err = _late_dep_eval(world, case, roots)
+        if err is not None:
+            rep.failure("%s before the late dependency raised %r" % (what, err), case)
+            return "raised-before"
+        if any(x == c for x, a in world.calls):
+            rep.failure("%s: component %d was invoked although its at-least-one group has no member with a value" % (what, c), case)
+    try:
+        dr.add_dependency(world.comps[c], world.comps[d])
+    except Exception as ex:
+        rep.failure("dr.add_dependency(%d, %d) raised %r" % (c, d, ex), case)
+        return "raised-add"
+    why = world.edges_inconsistent()
+    if why:
+        rep.failure("after dr.add_dependency(%d, %d): %s" % (c, d, why), case)
+    decl = _walk_decl(world, [(c, d)])
+    # the graph as the walker gives it now (compared with the model's graph of the updated declarations)
+    text = "?"
+    try:
+        g = dr.get_dependency_graph(world.comps[roots[0]])
+        if not isinstance(g, dict) or any(k not in world.ids for k in g) or any(x not in world.ids for v in g.values() for x in v):
+            rep.failure("%s: get_dependency_graph after the late dependency is not a graph of this world: %r" % (what, type(g)), case)
+        else:
+            gi = dict((world.ids[k], set(world.ids[x] for x in v)) for k, v in g.items())
+            reach = _closure(decl, roots)
+            if set(gi) != reach or any(gi[k] != decl[k] for k in gi if k in decl):
+                rep.failure("after dr.add_dependency(%d, %d) the graph of %s is %s; the declared edges give keys %s with %d -> %s"
+                            % (c, d, roots, dict((k, sorted(v)) for k, v in sorted(gi.items())), sorted(reach), c, sorted(decl[c])), case)
+            lv = [sorted(world.ids[x] for x in level) for level in toposort(dict((k, set(v)) for k, v in g.items()))]
+            text = "graph=%s|levels=%s" % (";".join("%d:%s" % (k, ",".join(map(str, sorted(gi[k])))) for k in sorted(gi)),
+                                           "/".join(",".join(map(str, l)) for l in lv))
+    except Exception as ex:
+        rep.failure("%s: get_dependency_graph after the late dependency raised %r" % (what, ex), case)
+        text = "raised:%s" % type(ex).__name__
+    # the same entry point again, fresh broker
+    b, err = _late_dep_eval(world, case, roots)
+    if err is not None:
+        rep.failure("%s after the late dependency raised %r" % (what, err), case)
+        return text
+    calls = [(x, a) for x, a in world.calls if not (a and a[0] == "elem")]
+    count = {}
+    for x, a in calls:
+        count[x] = count.get(x, 0) + 1
+    for x, k in sorted(count.items()):
+        if k > 1:
+            rep.failure("%s after the late dependency: component %d was invoked %d times" % (what, x, k), case)
+    first = {}
+    for i, (x, a) in enumerate(calls):
+        first.setdefault(x, i)
+    inst = dict((world.ids[k], v) for k, v in b.instances.items() if k in world.ids)
+
+    def met(x):
+        sx = spec[x]
+        req = [it[1] for it in sx["items"] if it[0] == "o"]
+        grp = [list(it[1]) + ([d] if (x == c and it is first_group) else []) for it in sx["items"] if it[0] == "g"]
+        return all(r in inst for r in req) and all(any(m in inst for m in g) for g in grp)
+    first_group = [it for it in spec[c]["items"] if it[0] == "g"][0]
+    d_on = spec[d].get("enabled", True)
+    if d_on and met(d) and d not in count:
+        rep.failure("%s after dr.add_dependency(%d, %d): the new dependency %d is enabled with its requirements met and was not "
+                    "invoked (it is no part of the evaluation)" % (what, c, d, d), case)
+    if not d_on and d in count:
+        rep.failure("%s: disabled component %d was invoked" % (what, d), case)
+    if met(c) and c not in count:
+        rep.failure("%s after dr.add_dependency(%d, %d): component %d has its requirements met (the new member %d of its "
+                    "at-least-one group has a value) and was not invoked" % (what, c, d, c, d), case)
+    if not met(c) and c in count:
+        rep.failure("%s: component %d was invoked with requirements missing" % (what, c), case)
+    if c in count:
+        # declaration order: what was written, then the optional ones, then the late member (ComponentType.add_dependency
+        # appends to deps)
+        deps = [x for it in spec[c]["items"] for x in ([it[1]] if it[0] == "o" else it[1])] + list(spec[c]["optional"]) + [d]
+
+        def cv(x):
+            v = W.canon_val(world, inst[x]) if x in inst else "N"
+            return tuple(v) if isinstance(v, list) else v
+        want = tuple(cv(x) for x in deps)
+        got = [a for x, a in calls if x == c][0]
+        if got != want:
+            rep.failure("%s after dr.add_dependency(%d, %d): component %d received %s, declaration order %s gives %s"
+                        % (what, c, d, c, got, deps, want), case)
+        if d in first and first[d] > first[c]:
+            rep.failure("%s: component %d was invoked before its (late) dependency %d" % (what, c, d), case)
+    att = list(getattr(b, "vlog", {}).get("attempts", []))      # (insights.run evaluates on a broker of its own)
+    if att:
+        attempts_oracle(rep, world, att, [], {}, case, what + " after the late dependency")
+    return text
+
+
+def late_dep_stream(chk, n):
+    rng = chk.rng
+    lines, impl, cases = [], [], []
+    for i in range(n):
+        case = gen_late_dep_case(rng)
+        world = W.World(case["spec"], "latedep_%s_%d_%d" % (chk.property_id if hasattr(chk, "property_id") else "x", chk.seed, i))
+        impl.append(late_dep_case(chk, world, dict(case, spec=W.strip(case["spec"]))))
+        roots = [case["c"]] if case["root"] == "c" else [case["top"]]
+        lines.append("depgraph\tone\t%s\t%s" % (";".join("%d:%s" % (k, ",".join(map(str, sorted(v))))
+                                                        for k, v in sorted(_walk_decl(world, [(case["c"], case["d"])]).items())), roots[0]))
+        cases.append(dict(case, spec=W.strip(case["spec"])))
+        chk.case(("late-dep", lines[-1], case["entry"]), nontrivial=True)
+        chk.count("late-add_dependency:" + case["entry"])
+    chk.compare("late-dependency-graph-vs-model", cases, impl, run_driver("Dr", lines))
+
+
+def replay_late_dep(case):
+    case = dict(case, spec=W.unstrip(case["spec"]))
+    W._replay_counter[0] += 1
+    world = W.World(case["spec"], "replayld%d" % W._replay_counter[0])
+
+    class Rep(object):
+        bad = 0
+
+        def failure(self, desc, c, finding=None):
+            self.bad += 1
+            print("oracle:", desc)
+    rep = Rep()
+    text = late_dep_case(rep, world, case)
+    roots = [case["c"]] if case["root"] == "c" else [case["top"]]
+    model = run_driver("Dr", ["depgraph\tone\t%s\t%s" % (";".join("%d:%s" % (k, ",".join(map(str, sorted(v))))
+                              for k, v in sorted(_walk_decl(world, [(case["c"], case["d"])]).items())), roots[0])])[0]
+    print("history: %s on %s, dr.add_dependency(%d, %d), %s again" % (case["entry"], roots, case["c"], case["d"], case["entry"]))
+    print("implementation:", text)
+    print("model:         ", model)
+    bad = rep.bad or text != model
+    print("property violated on this input" if bad else "property holds on this input")
+    return 1 if bad else 0
+
+
+# --------------------------------------------------------------------------- faults that end the evaluation of a sub-graph
+
+class _FFut(object):
+    def __init__(self, fn, a):
+        self.fn, self.a, self.done, self.val, self.exc = fn, a, False, None, None
+
+    def run(self):
+        if not self.done:
+            self.done = True
+            try:
+                self.val = self.fn(*self.a)
+            except BaseException as ex:
+                self.exc = ex
+
+    def result(self, timeout=None):
+        if not self.done:
+            self.owner.drain()
+        if self.exc is not None:
+            raise self.exc
+        return self.val
+
+
+class FaultPool(object):
+    """a pool whose tasks run exactly once (immediately, or all of them in a PRNG-chosen order when the first result is
+    asked for) and whose futures re-raise what their task raised — BaseException included — as concurrent.futures do"""
+
+    def __init__(self, rng, defer):
+        self.rng, self.defer, self.tasks = rng, defer, []
+
+    def submit(self, fn, *a):
+        f = _FFut(fn, a)
+        f.owner = self
+        self.tasks.append(f)
+        if not self.defer:
+            f.run()
+        return f
+
+    def drain(self):
+        todo = [t for t in self.tasks if not t.done]
+        self.rng.shuffle(todo)
+        for t in todo:
+            t.run()
+
+
+ESCAPE_ENTRIES = ["run", "run_all", "run_all-sync-pool", "run_all-defer-pool", "run_all-thread-pool", "run_incremental-list",
+                  "run_incremental-lazy"]
+
+
+def gen_escape_case(rng):
+    n = rng.randint(6, 14)
+    spec = W.gen_spec(rng, n, fault_rate=0.35, islands=rng.randint(2, 4))
+    cands = [i for i, sc in enumerate(spec) if sc["kind"] in ("plain", "plugin", "rule", "datasource") and not sc.get("multi")]
+    if not cands:
+        cands = [0]
+        spec[0].update(kind="datasource", items=[], optional=[], body="v")
+        spec[0].pop("multi", None)
+    x = rng.choice(cands)
+    name = rng.choice(sorted(W.ESCAPING))
+    spec[x]["body"] = "f:" + name
+    spec[x]["enabled"] = True
+    spec[0].pop("reset_enabled", None)
+    return {"op": "escape", "spec": spec, "x": x, "fault": name, "entry": rng.choice(ESCAPE_ENTRIES), "store_skips": rng.random() < 0.5,
+            "pool_seed": rng.randrange(1000)}
+
+
+def escape_case(rep, world, case):
+    """
+    ONE call of an entry point on ONE broker over a graph of several sub-graphs in which the body of component x raises
+    a fault that ends the evaluation of its sub-graph.  Whatever the entry point does with it: every body is invoked at
+    most once, every component's process() is called at most once, no exception object is recorded twice for one
+    component.  (Counted by the bodies and by the harness's wrappers of process(), not read off the broker.)
+    """
+    import random
+    entry = case["entry"]
+    graph = {}
+    for c in world.comps:
+        graph.update(dr.get_dependency_graph(c))
+    b = world.new_broker([], case.get("store_skips", False))
+    W.instrument(world, b)
+    world.calls = []
+    g = dict((k, set(v)) for k, v in graph.items())
+    escaped = None
+    try:
+        if entry == "run":
+            dr.run(g, broker=b)
+        elif entry == "run_all":
+            dr.run_all(g, b)
+        elif entry == "run_all-sync-pool":
+            dr.run_all(g, b, FaultPool(random.Random(case["pool_seed"]), False))
+        elif entry == "run_all-defer-pool":
+            dr.run_all(g, b, FaultPool(random.Random(case["pool_seed"]), True))
+        elif entry == "run_all-thread-pool":
+            from concurrent.futures import ThreadPoolExecutor
+            with ThreadPoolExecutor(max_workers=1 + case["pool_seed"] % 3) as pool:
+                dr.run_all(g, b, pool)
+        elif entry == "run_incremental-list":
+            list(dr.run_incremental(g, b))
+        else:
+            it = dr.run_incremental(g, b)
+            while True:
+                try:
+                    next(it)
+                except StopIteration:
+                    break
+    except BaseException as ex:
+        escaped = ex
+    what = "%s with component %d raising %s" % (entry, case["x"], W.ESCAPING[case["fault"]].__name__)
+    bodies = {}
+    for c, a in world.calls:
+        if not (a and a[0] == "elem"):
+            bodies[c] = bodies.get(c, 0) + 1
+    twice = sorted(c for c, k in bodies.items() if k > 1)
+    if twice:
+        rep.failure("%s: the bodies of %s were invoked more than once within one call (%s)" % (what, twice, dict((c, bodies[c]) for c in twice)), case)
+    att = [c for c in b.vlog.get("attempts", []) if c != -1]
+    twice = sorted(set(c for c in att if att.count(c) > 1))
+    if twice:
+        rep.failure("%s: %s were attempted more than once within one call (attempts %s)" % (what, twice, att), case)
+    for target, lst in list(b.exceptions.items()):
+        seen = set()
+        for ex in lst:
+            if id(ex) in seen:
+                rep.failure("%s: one exception object is recorded twice for component %s" % (what, world.ids.get(target, "?")), case)
+                break
+            seen.add(id(ex))
+    if case["x"] not in bodies and escaped is not None:
+        pass        # (x may be left uninvoked: disabled dependencies, missing requirements; then nothing escapes)
+    return escaped
+
+
+def escape_stream(chk, n):
+    rng = chk.rng
+    for i in range(n):
+        case = gen_escape_case(rng)
+        world = W.World(case["spec"], "esc_%d_%d" % (chk.seed, i))
+        escaped = escape_case(chk, world, dict(case, spec=W.strip(case["spec"])))
+        chk.case(("escape", i, case["entry"], case["fault"]), nontrivial=escaped is not None)
+        chk.count("escaping-fault:%s:%s" % (case["entry"], "escaped" if escaped is not None else "not-reached"))
+        chk.count("escaping-fault-kind:" + case["fault"])
+
+
+def replay_escape(case):
+    spec = W.unstrip(case["spec"])
+    bad = 0
+    for attempt in range(8):           # (thread pools and set orders: a few fresh worlds)
+        W._replay_counter[0] += 1
+        world = W.World(spec, "replayesc%d" % W._replay_counter[0])
+
+        class Rep(object):
+            n = 0
+
+            def failure(self, desc, c, finding=None):
+                self.n += 1
+                print("oracle:", desc)
+        rep = Rep()
+        escaped = escape_case(rep, world, case)
+        if attempt == 0:
+            print("escaped from the call:", repr(escaped))
+        if rep.n:
+            bad = 1
+            break
+    print("property violated on this input" if bad else "property holds on this input")
+    return bad
+
+
 # --------------------------------------------------------------------------- graph construction from components
 
 def _walk_decl(world, late):
@@ -729,12 +1125,18 @@ def run(chk):
     chk.compare("engine-vs-model", cases, impl, model)
     chk.sample({"case": cases[0], "impl": impl[0]})
     walk_stream(chk, 450 if quick else 8000)
+    late_dep_stream(chk, 250 if quick else 5000)
+    escape_stream(chk, 250 if quick else 5000)
 
 
 def replay(data):
     case = data["case"]
     if case.get("op") == "walk":
         return replay_walk(case)
+    if case.get("op") == "late-dep":
+        return replay_late_dep(case)
+    if case.get("op") == "escape":
+        return replay_escape(case)
     if case.get("op") == "default-graph":
         spec = W.unstrip(case["spec"])
         W._replay_counter[0] += 1
